@@ -1,6 +1,8 @@
 """C12 — one-edit neighbourhood generators and the set utilities on them are exact."""
 import json
 
+import numpy as np
+
 from harness import core, gen
 from harness.gen import AA
 
@@ -58,6 +60,13 @@ def run(chk):
             pos = sorted(rng.sample(range(len(x)), rng.randint(1, len(x))))
             add({"op": "ham_neighbors", "x": x, "A": AA, "pos": pos},
                 lambda x=x, pos=pos: list(ds.hamming_neighbors(x, variable_positions=pos)), ms, "gen")
+            # "iterable of positions": tuples, ranges, NumPy arrays and one-shot iterators (generator expression, iter, filter) alike
+            for mk in (tuple, lambda p_: iter(p_), lambda p_: (i for i in p_), lambda p_: np.array(p_), lambda p_: filter(lambda i: True, p_)):
+                add({"op": "ham_neighbors", "x": x, "A": AA, "pos": pos},
+                    lambda x=x, pos=pos, mk=mk: list(ds.hamming_neighbors(x, variable_positions=mk(pos))), ms, "gen")
+            lo = rng.randrange(len(x))
+            add({"op": "ham_neighbors", "x": x, "A": AA, "pos": list(range(lo, len(x)))},
+                lambda x=x, lo=lo: list(ds.hamming_neighbors(x, variable_positions=range(lo, len(x)))), ms, "gen")
     # --- next_nearest_neighbors
     import functools
     for alpha in ("AC", "ACD"):
